@@ -275,6 +275,23 @@ func (w *apWalker) freeVarBinding(fv *ssa.FreeVar) ssa.Value {
 		}
 	}
 	p := fn.Parent()
+	if p == nil && idx >= 0 && fn.Synthetic != "" && currentWorld != nil {
+		// a bound-method wrapper (`add := ig.require`): bound where the method value is made
+		var out ssa.Value
+		n := 0
+		for _, rf := range currentWorld.RepoFuncs() {
+			allInstrs(rf, func(in ssa.Instruction) {
+				if mc, ok := in.(*ssa.MakeClosure); ok && mc.Fn == fn {
+					out = mc.Bindings[idx]
+					n++
+				}
+			})
+		}
+		if n == 1 {
+			return out
+		}
+		return nil
+	}
 	if p == nil || idx < 0 {
 		return nil
 	}
@@ -434,3 +451,6 @@ func (w *apWalker) pathsInto(pred func(e *apEvent) bool, arg int) map[string][]s
 func hasPrefixPath(p, prefix string) bool {
 	return p == prefix || strings.HasPrefix(p, prefix+".") || strings.HasPrefix(p, prefix+"[")
 }
+
+// currentWorld: the program under analysis (set by the loader; used where a value has to be looked up program-wide)
+var currentWorld *World
